@@ -1,6 +1,7 @@
 package checks
 
 import (
+	"time"
 	"fmt"
 	"os"
 	"strings"
@@ -93,20 +94,34 @@ func C01(o *core.Options) int {
 		e2.ShadowSweep(r, models, opts, func(env *e2.Env, w *ref.World) { run(env, w) })
 		return r.Finish()
 	}
-	e2.Sweep(r, models, opts, func(env *e2.Env, w *ref.World) {
-		if len(w.Tuples) == 0 {
-			return
-		}
-		if len(w.Tuples) == 2 {
-			r.Sample(map[string]any{"model": w.M.String(), "tuples": e2.TuplesStr(w.Tuples)})
-		}
-		run(env, w)
-	})
+	// the bulk sweep runs last: the narrower passes below must not be the ones a deadline cuts
+	mainSweep := func() {
+		e2.Sweep(r, models, opts, func(env *e2.Env, w *ref.World) {
+			if len(w.Tuples) == 0 {
+				return
+			}
+			if len(w.Tuples) == 2 {
+				r.Sample(map[string]any{"model": w.M.String(), "tuples": e2.TuplesStr(w.Tuples)})
+			}
+			run(env, w)
+		})
+	}
+	phase := time.Now()
+	lap := func(name string) {
+		r.Set("phase_wall_s/"+name, time.Since(phase).Seconds())
+		phase = time.Now()
+	}
 	// three-tuple chains on a reduced universe (1 user, 1 group, 2 docs): the tuple-to-userset classes
 	// with mixed parent types and the twin-branch classes in quick, every class in thorough
 	var k3 []*ref.Model
+	nMask := 0
 	for _, m := range models {
-		if o.Thorough() || m.IsTwin() || strings.Contains(m.Signature(), "|r1=") {
+		mask := m.MaskableRows()
+		if mask {
+			nMask++
+		}
+		// in quick every 2nd class whose rows can mask each other (rotated by the seed)
+		if o.Thorough() || m.IsTwin() || strings.Contains(m.Signature(), "|r1=") || (mask && (nMask+int(o.Seed))%2 == 0) {
 			k3 = append(k3, m)
 		}
 	}
@@ -123,6 +138,7 @@ func C01(o *core.Options) int {
 		r.Count("worlds_with_three_tuples", 1)
 		run(env, w)
 	})
+	lap("k3")
 	// nested set operators over one object (ref.FlatFamily): every tuple subset of size <= 4
 	fu := ref.FlatUniverse()
 	of := opts
@@ -141,23 +157,28 @@ func C01(o *core.Options) int {
 		run(env, w)
 	})
 	nodes = save
+	lap("flat")
 	// contextual tuple with the key of a stored tuple (different condition/context)
 	if !o.Thorough() {
 		e2.ShadowExtraStride = 6
 	}
 	e2.ShadowSweep(r, models, opts, func(env *e2.Env, w *ref.World) { run(env, w) })
+	lap("shadow")
 	// leftover tuples: one tuple invalid for M, plus |T|<=1
 	lo := opts
 	lo.K = 1
 	lo.Leftover = true
 	lm := ref.Representatives(models, 1, o.Seed)
-	if !o.Thorough() && len(lm) > 40 {
-		lm = lm[:40]
+	if !o.Thorough() && len(lm) > 20 {
+		lm = lm[:20]
 	}
 	e2.Sweep(r, lm, lo, func(env *e2.Env, w *ref.World) {
 		r.Count("worlds_with_leftover_tuple", 1)
 		run(env, w)
 	})
+	lap("leftover")
+	mainSweep()
+	lap("main")
 	return r.Finish()
 }
 
